@@ -58,7 +58,19 @@ def run_programs(cfg, programs, nproc=None, timeout=900, fresh=False):
     if fresh:
         from concurrent.futures import ThreadPoolExecutor
         with ThreadPoolExecutor(nproc) as ex:
-            return [t[0] for t in ex.map(lambda p: run_programs(cfg, [p], nproc=1, timeout=timeout), programs)]
+            return [t[0] for t in ex.map(lambda p: run_programs(cfg, [dict(p, fresh=False)], nproc=1, timeout=timeout), programs)]
+    marked = [p for p in programs if p.get("fresh")]
+    if marked and len(marked) < len(programs):
+        # programs marked fresh=True get an interpreter of their own, the others share worker processes
+        byid = {}
+        rest = [p for p in programs if not p.get("fresh")]
+        for p, t in zip(marked, run_programs(cfg, marked, nproc=nproc, timeout=timeout, fresh=True)):
+            byid[p["id"]] = t
+        for p, t in zip(rest, run_programs(cfg, rest, nproc=nproc, timeout=timeout)):
+            byid[p["id"]] = t
+        return [byid[p["id"]] for p in programs]
+    if marked:
+        return run_programs(cfg, programs, nproc=nproc, timeout=timeout, fresh=True)
     orig = programs
     if len(set(p["id"] for p in programs)) != len(programs):
         # identical programs generated twice are run once; the same id with different content is a generator bug
